@@ -36,9 +36,11 @@ def main(tier, seed):
             progs.append((f"gen/{len(progs)}", p))
     from .c01 import load_corpus
     progs += load_corpus("findings") + load_corpus("clean")
-    vns = ["noinline", "tail", "pushpop", "default"]
+    vns = ["noinline", "tail", "pushpop", "default", "tailinline"]
     cases = pipeline.compile_cases(progs, vns if tier == "thorough" else None) if tier == "thorough" else \
         _rot(progs, vns)
+    from .. import idioms
+    cases += pipeline.compile_cases([(n, p) for n, p in idioms.programs(rng) if p.funcs], vns + ["pushpopinline", "all"])
     oks = [c for c in cases if c.ok]
     items, keep = [], []
     for c in oks:
@@ -67,6 +69,29 @@ def main(tier, seed):
                    "after_main_only": all(_owner_before(c, e) == "" for e in bad_e),
                    "option_set": c.vname, "options": c.opts, "source": c.prog.text(), "code": c.result["code"]}
             run.violation("a function region can be entered by sequential flow (layout not closed)", rec)
+    # function bodies are entered through calls only: the top-level code never *jumps* to a function's
+    # entry label (a jump leaves no return address; the function's 'j ra' would then go to line 0 or to
+    # a stale address)
+    for c in oks:
+        ow = pipeline.line_owners(c.result)
+        lines = c.result["code"].split("\n")
+        labels = {}
+        from ..ic10 import tokenize as _tok
+        for i, ln in enumerate(lines):
+            t = _tok(ln)
+            if t and t[0].endswith(":") and len(t) == 1:
+                labels[t[0][:-1]] = i
+        entry_labels = {lines[e].strip()[:-1] for e in getattr(c, "entries", []) if e < len(lines) and lines[e].strip().endswith(":")}
+        for i, ln in enumerate(lines):
+            t = _tok(ln)
+            if not t or t[0] in ("jal",) or not (t[0] == "j" or t[0].startswith("b")):
+                continue
+            tgt = t[-1]
+            numeric_entry = tgt.isdigit() and int(tgt) in set(getattr(c, "entries", []))
+            if (tgt in entry_labels or numeric_entry) and i < len(ow) and ow[i] == "":
+                run.violation("the top-level code jumps (not calls) into a function body",
+                              {"kind": "jump_into_function", "line": i, "instruction": ln.strip(), "option_set": c.vname, "options": c.opts,
+                               "source": c.prog.text(), "code": c.result["code"]})
     # dynamic: execution past the end of the main code
     try:
         pipeline.diff_cases(keep, name="c07")
